@@ -35,6 +35,7 @@ type Case struct {
 	CEnc                                              string `json:",omitempty"` // Content-Encoding of the probe: "" | identity | utf-8 | compress (none of them a supported compression: the body is taken as is)
 	Fillers                                           []Filler
 	Rewrite                                           bool   `json:",omitempty"` // the handler overrides path and method after reading the values (they must stay what they were until it returns)
+	Miss                                              bool   `json:",omitempty"` // before the probe, a request that matches no route at all is answered by the application's ErrorHandler, which keeps what it read
 	Pre                                               string `json:",omitempty"` // middleware in front of the endpoint: "" | mw-next (passes on) | mw-params (reads its own route parameter and other accessors, keeps them, passes on)
 }
 
@@ -52,6 +53,7 @@ type Bound struct {
 
 type run struct {
 	preCaps   []capt // taken by the middleware of the probe request
+	ehCaps    []capt // taken by the ErrorHandler for the unrouted request in front of the probe
 	caps      []capt
 	atReturn  []string // captures that had changed already when the handler returned
 	wrongSent []string
@@ -171,7 +173,7 @@ func (r *run) capture(c fiber.Ctx, cs Case, probe bool) {
 			r.wrongSent = append(r.wrongSent, fmt.Sprintf("%s: got %q, sent %q", cp.family, cp.orig, cp.sent))
 		}
 	}
-	r.caps = append(r.preCaps, caps...)
+	r.caps = append(append(append([]capt{}, r.ehCaps...), r.preCaps...), caps...)
 }
 
 func (cs Case) probeWire() string {
@@ -209,8 +211,20 @@ func (f Filler) wire() string {
 }
 
 func exchange(cs Case, immutable bool) (*run, error) {
-	app := fiber.New(fiber.Config{Immutable: immutable, ProxyHeader: "X-Forwarded-For"})
 	r := &run{}
+	app := fiber.New(fiber.Config{Immutable: immutable, ProxyHeader: "X-Forwarded-For", ErrorHandler: func(c fiber.Ctx, err error) error {
+		if c.Query("probe") == "1" {
+			// an error handler that keeps what it saw (for a log line, a metric label, ...)
+			add := func(fam, v, sent string) { r.ehCaps = append(r.ehCaps, capt{fam, v, strings.Clone(v), sent}) }
+			add("Route().Path(errorhandler)", c.Route().Path, "")
+			add("Path(errorhandler)", c.Path(), "/nowhere/"+cs.ID+"/"+cs.Rest)
+			add("OriginalURL(errorhandler)", c.OriginalURL(), "")
+			add("Method(errorhandler)", c.Method(), "GET")
+			add("Get(errorhandler)", c.Get("X-Name"), cs.XName)
+			add("error text(errorhandler)", err.Error(), "")
+		}
+		return fiber.DefaultErrorHandler(c, err)
+	}})
 	if cs.Pre != "" {
 		app.Use("/u/:uid", func(c fiber.Ctx) error {
 			if cs.Pre == "mw-params" {
@@ -236,6 +250,9 @@ func exchange(cs Case, immutable bool) (*run, error) {
 		return nil
 	})
 	conn := cs.probeWire()
+	if cs.Miss {
+		conn = fmt.Sprintf("GET /nowhere/%s/%s?probe=1 HTTP/1.1\r\nHost: %s.example.com\r\nX-Name: %s\r\n\r\n", cs.ID, cs.Rest, cs.H1, cs.XName) + conn
+	}
 	var conns []string
 	for _, f := range cs.Fillers {
 		if f.NewConn {
@@ -303,6 +320,9 @@ func check(cs Case) vk.Verdict {
 	if cs.Pre != "" {
 		v.Classes = append(v.Classes, "pre:"+cs.Pre)
 	}
+	if cs.Miss {
+		v.Classes = append(v.Classes, "unrouted-request-seen-by-errorhandler")
+	}
 	return v
 }
 
@@ -314,7 +334,7 @@ func genCase(t *rapid.T) Case {
 	cs := Case{ID: word(t, "id", 3, 9), Rest: word(t, "rest", 3, 9), QName: word(t, "qn", 3, 9), T1: word(t, "t1", 2, 5), T2: word(t, "t2", 2, 5),
 		H1: word(t, "h1", 2, 5), H2: word(t, "h2", 2, 5), XName: word(t, "xn", 3, 9), Ck: word(t, "ck", 3, 9), FName: word(t, "fn", 3, 9), JSONBody: rapid.IntRange(0, 3).Draw(t, "json") == 0,
 		CEnc: rapid.SampledFrom([]string{"", "", "", "identity", "utf-8", "compress"}).Draw(t, "cenc"),
-		Pre:  rapid.SampledFrom([]string{"", "", "mw-next", "mw-params", "mw-params"}).Draw(t, "pre"), Rewrite: rapid.IntRange(0, 3).Draw(t, "rewrite") == 0}
+		Pre:  rapid.SampledFrom([]string{"", "", "mw-next", "mw-params", "mw-params"}).Draw(t, "pre"), Rewrite: rapid.IntRange(0, 3).Draw(t, "rewrite") == 0, Miss: rapid.IntRange(0, 2).Draw(t, "miss") == 0}
 	n := rapid.IntRange(1, 20).Draw(t, "nfill")
 	up := func(label string, lo, hi int) string { return strings.ToUpper(word(t, label, lo, hi)) }
 	for i := 0; i < n; i++ {
